@@ -8,7 +8,7 @@ from .c01 import reply_ok
 
 ID = "C14"
 BUDGET = {"quick": 40, "thorough": 600}
-MAX_RUNS = {"quick": 1500, "thorough": 300000}
+MAX_RUNS = {"quick": 6000, "thorough": 300000}
 TECHNIQUE = "deterministic simulation with fault injection: clients stalled at seeded handshake offsets and back-pressured tunnels, API calls interleaved at seeded instants, bounded-liveness oracle on the virtual clock"
 RULE = ("plans: 1-5 clients stalled after j bytes of their handshake (every listener protocol incl. TLS ClientHello prefixes and QUIC streams), 0-2 tunnels whose far end "
         "stops reading, API calls (GET status/live/history/rules/metrics, POST rules/logrotate) at seeded instants, canary tunnels on every listener before, during "
@@ -91,13 +91,15 @@ def gen(rng, tier, i):
         t += rng.choice([0, 1, 30, 500, 3000])
         m, p = rng.choice(APIS)
         body = rules_body if (m, p) == ("POST", "/api/rules") else None
-        sc.api_call("api%d" % k, m, p, body=body, start_ms=t, timeout_ms=60000, background=True)
+        # /metrics renders /proc-derived process statistics of the real process: only its status line is kept
+        sc.api_call("api%d" % k, m, p, body=body, start_ms=t, timeout_ms=60000, background=True, **({"keep": 12} if p.endswith("metrics") else {}))
         calls.append({"cid": "api%d" % k, "m": m, "p": p, "at": t})
         if rng.random() < 0.8:
             canary(t + rng.choice([1, 2, 10, 50]), "during")
     canary(t + 8000, "after")
     sc.meta = {"cls": "st%d/api%d" % (len(stalled), ncall), "cfgkey": "%s/%s/%s" % (cname, "-".join(s["lk"] + str(s["j"]) for s in stalled), "-".join(c["p"].split("/")[-1] for c in calls)),
-               "stalled": stalled, "calls": calls, "canaries": canaries, "keep_ops": True}
+               "stalled": stalled, "calls": calls, "canaries": canaries, "keep_ops": True,
+               "nondeterministic_bodies": [c["cid"] for c in calls if c["p"].endswith("metrics")]}
     sc.max_ms = t + 8000 + 40000
     return sc.plan(want_events=False)
 
@@ -132,6 +134,10 @@ def oracle(plan, out):
             took = ((rec["t1"] - conn["t0"]) / 1e6) if rec and not rec["res"].startswith("timeout") else None
             v("api-blocked", c["p"].split("/")[-1], "%s %s issued at %.3fs %s while clients were stalled in their %s handshake" % (
                 c["m"], c["p"], conn["t0"] / 1e6, ("returned only after %.1fs" % took) if took else "never returned (60 s)", stalled_kinds))
+            continue
+        if c["p"].endswith("metrics"):
+            if not bytes.fromhex(rec.get("hex", "")).startswith(b"HTTP/1.1 200"):
+                v("api-error", "metrics", "GET /api/metrics answered %r" % bytes.fromhex(rec.get("hex", "")))
             continue
         h = R.history(c["cid"])
         if h is None or h[0] != 200:
